@@ -9,7 +9,11 @@ RULE = ("cases: the real CCheckQueue with 0..8 worker threads and batch sizes 1.
         "CCheckQueueControl sessions (all checks pass / exactly one fails at every position / several fail / empty session / a failing session "
         "followed by a passing one), checks handed over in 1..n Add() calls, some checks slow so that workers overlap, the whole script repeated "
         "20-200 times; only schedule-independent facts are compared: pass/fail of each Complete(), the reported failure is one of the failing "
-        "checks, every check ran when success is reported, no check ran twice. non-trivial = at least one worker thread and more than one check")
+        "checks, every check ran when success is reported, no check ran twice. prevout_fetch: the real CoinsViewOverlay over a cache over an "
+        "in-memory coins database with 0..16 fetch threads, blocks of 1..30 transactions spending base coins, outputs created earlier in the block, "
+        "absent coins and duplicated outpoints, accessed in block order / shuffled / partially / with extra outpoints, repeated 5-50 times; "
+        "compared: every answer equals the direct lookup, the cache below the overlay stays empty, AllInputsConsumed, identical over repetitions. "
+        "non-trivial = at least one worker thread and more than one check")
 ASSUMPTIONS = ["a check's verdict does not depend on the schedule (the checks share no mutable state)",
                "m_mutex makes the critical sections of Loop()/Add() atomic and std::condition_variable behaves as specified (the model's steps ARE those critical sections)",
                "only the master thread calls Add()/Complete(), one CCheckQueueControl at a time (m_control_mutex)"]
@@ -86,8 +90,43 @@ class Verdict(str):
         return hash(Verdict.key(self))
 
 
+def gen_fetch(rng, tier):
+    cases = ["fetch 4 20 | c1 ; c2,c3 ; t1,c4 ; c9 | c1 c2 c3 t1 c4 c9 | 1 2 3 4",
+             "fetch 4 20 | c1 ; c2,c3 ; t1,c4 ; c9 | c2 c1 c3 c9 c4 c1 | 1 2 3 4",
+             "fetch 0 5 | c1 ; c2 | c1 c2 | 1"]
+    n = 300 if tier == "quick" else 6000
+    for _ in range(n):
+        th = rng.choice([0, 1, 2, 4, 8, 16])
+        ntx = rng.choice([1, 2, 3, 6, 12, 30])
+        coins = list(range(1, 3 * ntx + 4))
+        txs, flat = [], []
+        nxt = 1
+        for j in range(1, ntx + 1):
+            ins = []
+            for _k in range(rng.choice([1, 1, 2, 3])):
+                if j > 1 and rng.random() < 0.25:
+                    ins.append("t%d" % rng.randrange(1, j))
+                elif rng.random() < 0.1 and flat:
+                    ins.append(rng.choice(flat))            # the same outpoint twice in the block (an invalid block)
+                else:
+                    ins.append("c%d" % nxt); nxt += 1
+            txs.append(",".join(ins)); flat += ins
+        order = rng.choice(["inorder", "inorder", "shuffled", "partial", "extra"])
+        acc = list(flat)
+        if order == "shuffled": rng.shuffle(acc)
+        elif order == "partial": acc = acc[:rng.randrange(0, len(acc) + 1)]
+        elif order == "extra":
+            for _k in range(rng.choice([1, 3])):
+                acc.insert(rng.randrange(len(acc) + 1), rng.choice(["c%d" % rng.randrange(1, nxt + 3), rng.choice(flat)]))
+        present = [k for k in range(1, nxt + 3) if rng.random() < rng.choice([1.0, 0.9, 0.5])]
+        cases.append("fetch %d %d | %s | %s | %s" % (th, rng.choice([5, 20, 50]), " ; ".join(txs), " ".join(acc), " ".join(map(str, present))))
+    return cases
+
+
 TIES = [Tie("checkqueue", "tie/drivers/checkqueue_drv.cpp", "Extract_CheckQueue.v", "checkqueue_driver.ml", gen,
-            predicate="driver", nontrivial=nontrivial, classify=lambda c: "w" + c.split()[1], canon=Verdict, timeout=3000)]
+            predicate="driver", nontrivial=nontrivial, classify=lambda c: "w" + c.split()[1], canon=Verdict, timeout=3000),
+        Tie("prevout_fetch", "tie/drivers/checkqueue_fetch_drv.cpp", "Extract_ConcFetch.v", "checkqueue_fetch_driver.ml", gen_fetch,
+            predicate="driver", nontrivial=lambda c: not c.startswith("fetch 0 "), classify=lambda c: "t" + c.split()[1], timeout=3000)]
 
 LEVEL_TEXT = ("Coq theorems over EVERY schedule (any interleaving of the critical sections of master and workers, any number of workers, any batch "
               "size, condition variables with lost-notification semantics) of an executable transcription of CCheckQueue::Loop / Add / Complete: "
@@ -95,11 +134,16 @@ LEVEL_TEXT = ("Coq theorems over EVERY schedule (any interleaving of the critica
               "of one of the session's failing checks (which one is schedule-dependent); success is reported only after every check ran; a batch is "
               "skipped only when a failure is already recorded; a thread never publishes a failure left over from an earlier session (local_result "
               "outlives loop iterations); after Complete() the queue is clean; Complete() never deadlocks and returns within a computed number of "
-              "steps under every schedule. Tied to the real CCheckQueue with real threads on schedule-independent observables.")
-LEVEL_NOTE = ("PARTIAL. Proved: the script-check queue clauses (verdict and reject-reason category independent of thread count and interleaving). NOT "
-              "proved, named residue: (1) 'no data race' and memory-order correctness -- the model's atomic steps are the m_mutex critical sections and "
-              "sequentially consistent; that the C++ realises them is not expressible in an executable Gallina model; (2) the prevout fetcher "
-              "(CoinsViewOverlay::StartFetching / ProcessInput / FetchCoinFromBase, fetch_add + release/acquire flag) is not modelled here; (3) 'the "
-              "resulting UTXO set' is not part of this model (script checks do not write the UTXO set; C01/C02/C09/C15 cover the ledger and the cache "
-              "layers). The correspondence exercises real threads but cannot enumerate schedules; it compares only schedule-independent facts.")
+              "steps under every schedule. The prevout fetcher (CoinsViewOverlay) in the same style: for every schedule and request order each fetched coin "
+              "is the base view's coin, its assertions never fire, no input is claimed twice, the validation thread's wait always makes progress. Tied to "
+              "the real CCheckQueue and the real CoinsViewOverlay with real threads on schedule-independent observables.")
+LEVEL_NOTE = ("PARTIAL. Proved: the script-check queue clauses (verdict and reject-reason category independent of thread count and interleaving) and the "
+              "prevout-fetch clause (same coins as a direct lookup; the base is only read through the const PeekCoin, so 'base unchanged' holds by "
+              "construction of the model and is checked on the real views by the driver). NOT proved, named residue: (1) 'no data race' and memory-order "
+              "correctness -- the models' atomic steps are the m_mutex critical sections resp. the fetch_add / coin write / release-store / "
+              "acquire-wait events in program order and sequentially consistent; that the C++ atomics realise them is not expressible in an executable "
+              "Gallina model (a ThreadSanitizer run would be supporting evidence, not a proof); (2) 'the resulting UTXO set' is not part of these "
+              "models (script checks do not write the UTXO set; the overlay's Flush/SpendCoin/AddCoin are the cache layers of C15, the ledger is "
+              "C01/C02/C09); (3) ThreadPool internals and StopFetching/Reset joining the workers. The correspondence exercises real threads but cannot "
+              "enumerate schedules; it compares only schedule-independent facts.")
 TECHNIQUE = "Coq proof (inductive invariant of a small-step concurrent machine, permutation reasoning over thread-held batches, decreasing measure for termination) + differential correspondence with real threads"
